@@ -15,7 +15,7 @@ from gvmon.monitors import contracts
 RULE = ("(a) mappings word-like key -> non-empty list of non-empty strings over arbitrary Unicode (structural characters, "
         "controls, DEL, NEL, LS, NBSP, astral, random code points) printed and re-parsed under each of 72 supplied dialect "
         "dictionaries (GTF-style: values free of ; \" , and control characters); non-trivial = mapping contains a reserved "
-        "or whitespace character; (b) every string over the alphabet {; = SP \" , a % 1} up to length 6 (quick) / 8 "
+        "or whitespace character; (b) every string over the alphabet {; = SP \" , a % 1} up to length 6 (quick) / 9 "
         "(thorough) through the inferring parser, up to length 4 through every supplied dialect, random strings to length "
         "200; non-trivial = contains a structural character; distinct by mapping+dialect / by string")
 REQUIRED = ["(a) print/parse round trips", "(b) strings parsed (inferred)", "(b) strings parsed (supplied dialect)",
@@ -222,7 +222,7 @@ def run(ctx):
         roundtrip(ctx, case)
         ctx.case((d, m), True, cls="special character placements")
     # (b) exhaustive totality, inferred dialect
-    maxlen = 6 if ctx.tier == "quick" else 8
+    maxlen = 6 if ctx.tier == "quick" else 9
     i = 0
     n = nt = 0
     for L in range(0, maxlen + 1):
